@@ -214,6 +214,5 @@ func (s *State) FrameText(sc Scope) string {
 		out = append(out, "interface "+i.HW+" nameif "+i.Nameif+" "+strings.Join(i.Extra, ";"))
 	}
 	out = append(out, s.Opaque...)
-	out = append(out, s.Gen.frame(s, sc)...)
 	return strings.Join(out, "\n")
 }
